@@ -198,6 +198,9 @@ func NewCoreRun(sch *Schedule) *CoreRun {
 	if b, _ := sch.Cfg["HookScrapes"].(bool); b {
 		c.opt.HookScrapes = true
 	}
+	if b, _ := sch.Cfg["RmReal"].(bool); b {
+		c.opt.RmReal = true
+	}
 	if i0, ok := sch.Cfg["Info0"].([]any); ok && len(i0) == 2 {
 		c.opt.Member, c.opt.Total = num(i0[0]), num(i0[1])
 	}
@@ -304,7 +307,7 @@ func (c *CoreRun) await(st *Step) {
 			for dl := time.Now().Add(stepTimeout / 4); time.Now().Before(dl); {
 				pp := c.r.Post()
 				ok := true
-				for _, k := range []string{"open", "active", "rebalances", "stopped", "flag"} {
+				for _, k := range []string{"open", "active", "rebalances", "stopped", "flag", "thr"} {
 					if w, has := st.Post[k]; has && Canon(w) != Canon(pp[k]) {
 						ok = false
 					}
@@ -605,19 +608,17 @@ func (c *CoreRun) exec(l map[string]any) string {
 		c.r.RmSwitch(on, slots)
 		c.r.S.Emit(Ev{"ev": "RmSwitch", "on": on, "slots": slots})
 	case "Report":
-		if c.r.RM == nil {
-			return "rollback mitigation is off"
-		}
 		vb, slot, uuid, seq := num(l["vb"]), num(l["slot"]), num(l["uuid"]), num(l["seq"])
 		c.r.S.Emit(Ev{"ev": "Report", "vb": vb, "slot": slot, "uuid": uuid, "seq": seq})
-		c.r.RM.Report(uint16(vb-1), slot-1, gocbcore.VbUUID(uuid), gocbcore.SeqNo(seq))
-	case "Absent":
-		if c.r.RM == nil {
+		if !c.r.RmReport(vb-1, slot-1, uint64(uuid), uint64(seq)) {
 			return "rollback mitigation is off"
 		}
+	case "Absent":
 		vb, slot := num(l["vb"]), num(l["slot"])
 		c.r.S.Emit(Ev{"ev": "Absent", "vb": vb, "slot": slot})
-		c.r.RM.Absent(uint16(vb-1), slot-1)
+		if !c.r.RmAbsent(vb-1, slot-1) {
+			return "rollback mitigation is off"
+		}
 	case "Scrape":
 		r := c.r
 		r.S.Go("scr", func() { r.S.Emit(r.Scrape()) })
